@@ -767,6 +767,7 @@ def extract_fn(gen, f, probe=False):
     qual = f.rename
   # ---- signature normalisation (R5)
   s = f.sig if region else sig.s
+  s = re.sub(r"//[^\n]*", "", s)   # line comments inside a parameter list would swallow the rest of the (joined) signature
   s2 = re.sub(r"^\s*(pub(\([a-z]+\))?\s+)?", "", s)
   for old, new in f.sig_sub:
     if not isinstance(old, str):
